@@ -52,6 +52,12 @@ double log2(double x) { /* floor(log2(x)) for x >= 1; call sites cast to int */
   return (double)r;
 }
 
+double round(double x) { /* round half away from zero, x >= 0 at every call site */
+  long n = (long)x;
+  return (x - (double)n >= 0.5) ? (double)(n + 1) : (double)n;
+}
+word m4ri_random_word(void) { return nondet_word(); }
+
 long random(void) {
   long r = nondet_int();
   __CPROVER_assume(r >= 0);
